@@ -267,12 +267,19 @@ pub fn eval(expr: Node) -> Result<f64, Box<dyn error::Error>> {
         }
         Avg(args) => {
             let mut result = 0.0;
+            let mut scaled = 0.0;
+            let len = args.len() as f64;
             for arg in <Vec<Node> as Clone>::clone(&args).into_iter() {
                 #[cfg(feature = "verif_hooks")]
                 crate::verif_hooks::tick(crate::verif_hooks::Point::EvalLoop);
-                result += eval(arg)?;
+                let value = eval(arg)?;
+                result += value;
+                scaled += value / len;
             }
-            let len = args.len() as f64;
+            if result.is_infinite() && scaled.is_finite() {
+                // the sum overflows although the mean does not (avg(1e308, 1e308))
+                return Ok(scaled);
+            }
             Ok(result / len)
         }
         Med(args) => {
@@ -288,7 +295,12 @@ pub fn eval(expr: Node) -> Result<f64, Box<dyn error::Error>> {
             });
             let len = results.len();
             if len % 2 == 0 {
-                Ok((results[len >> 1] + results[(len >> 1) - 1]) / 2.0)
+                let (a, b) = (results[len >> 1], results[(len >> 1) - 1]);
+                if (a + b).is_infinite() && a.is_finite() && b.is_finite() {
+                    // the sum overflows although the mean does not
+                    return Ok(a / 2.0 + b / 2.0);
+                }
+                Ok((a + b) / 2.0)
             } else {
                 Ok(results[len >> 1])
             }
